@@ -854,7 +854,8 @@ func (ls *LanceroSource) distributeData(buffersMsg BuffersChanType) *dataBlock {
 	for frame := 0; frame < framesUsed; frame++ { // frame within this block, need to add ls.nextFrameNum for consistent timing across blocks
 		for row := 0; row < nrows; row++ { // search the first column for frame bit level triggers
 			channelIndex := row*2 + 1
-			v := datacopies[channelIndex][frame]
+			// datacopies is in readout order (row-major); channelIndex is in channel order.
+			v := datacopies[ls.chan2readoutOrder[channelIndex]][frame]
 			externalTriggerState := (v & 0x02) == 0x02 // external trigger bit is 2nd least significant bit in feedback (odd channelIndex)
 			if externalTriggerState && !ls.externalTriggerLastState {
 				if ls.mixedRowCounts {
